@@ -498,6 +498,10 @@ pub enum AesPlan {
     Flips(Vec<(u64, u8)>),
     /// wrong declared CRC: must fail under AE-1, must be ignored under AE-2
     WrongCrc,
+    /// multi-byte changes of verifier, authentication code, salt and ciphertext (enumerated list): the same
+    /// XOR mask on two bytes, bytes exchanged, every other value of one byte, all-zero / all-ones fields,
+    /// 16-byte blocks exchanged - "ANY change ... makes opening or reading it fail"
+    Patterns { range: Option<(u64, u64)> },
 }
 
 #[derive(Serialize, Deserialize, Clone, Debug, PartialEq)]
@@ -580,7 +584,8 @@ impl Scenario for AesSc {
         }
         let plan = match plan_kind {
             0 | 1 => AesPlan::Passwords { wrong: (0..3).map(|_| Hex(r.rbytes(0, 12))).collect() },
-            2..=5 => AesPlan::AllFlips { range: None },
+            2..=4 => AesPlan::AllFlips { range: None },
+            5 => AesPlan::Patterns { range: None },
             6 | 7 | 8 => AesPlan::Flips((0..r.range(1, 12)).map(|_| (r.below(1 << 30), r.below(8) as u8)).collect()),
             _ => AesPlan::WrongCrc,
         };
@@ -734,6 +739,94 @@ impl Scenario for AesSc {
                         r?;
                     }
                 }
+                AesPlan::Patterns { range } => {
+                    // (region, list of (blob offset, new byte value))
+                    let cs = info.csize;
+                    let blob: Vec<u8> = b.image[info.data_start as usize..(info.data_start + cs) as usize].to_vec();
+                    let mut pats: Vec<(&'static str, Vec<(u64, u8)>, String)> = vec![];
+                    let xor2 = |a: u64, bb: u64, m: u8| vec![(a, blob[a as usize] ^ m), (bb, blob[bb as usize] ^ m)];
+                    let v0 = sl;
+                    // verifier: both bytes by the same mask (255), every other value of each byte (510), exchanged, constants
+                    for m in 1..=255u8 {
+                        pats.push(("verifier", xor2(v0, v0 + 1, m), format!("verifier: both bytes xor {m:#04x}")));
+                    }
+                    for i in 0..2u64 {
+                        for m in 1..=255u8 {
+                            if m.count_ones() > 1 {
+                                pats.push(("verifier", vec![(v0 + i, blob[(v0 + i) as usize] ^ m)], format!("verifier: byte {i} xor {m:#04x}")));
+                            }
+                        }
+                    }
+                    pats.push(("verifier", vec![(v0, blob[v0 as usize + 1]), (v0 + 1, blob[v0 as usize])], "verifier: bytes exchanged".into()));
+                    for k in [0u8, 0xff] {
+                        pats.push(("verifier", vec![(v0, k), (v0 + 1, k)], format!("verifier: set to {k:#04x}{k:02x}")));
+                    }
+                    // authentication code: every pair of bytes by the same mask, all ten by the same mask, rotations, constants
+                    let m0 = cs - 10;
+                    for i in 0..10u64 {
+                        for j in i + 1..10 {
+                            for m in [0x01u8, 0x80, 0xff, 0x5a] {
+                                pats.push(("mac", xor2(m0 + i, m0 + j, m), format!("authentication code: bytes {i} and {j} xor {m:#04x}")));
+                            }
+                        }
+                    }
+                    for m in [0x01u8, 0x80, 0xff] {
+                        pats.push(("mac", (0..10u64).map(|i| (m0 + i, blob[(m0 + i) as usize] ^ m)).collect(), format!("authentication code: all bytes xor {m:#04x}")));
+                    }
+                    for rot in [1u64, 5, 9] {
+                        pats.push(("mac", (0..10u64).map(|i| (m0 + i, blob[(m0 + (i + rot) % 10) as usize])).collect(), format!("authentication code: rotated by {rot}")));
+                    }
+                    for k in [0u8, 0xff] {
+                        pats.push(("mac", (0..10u64).map(|i| (m0 + i, k)).collect(), format!("authentication code: all {k:#04x}")));
+                    }
+                    for i in 0..10u64 {
+                        for m in [0x03u8, 0x81, 0xfe, 0x55] {
+                            pats.push(("mac", vec![(m0 + i, blob[(m0 + i) as usize] ^ m)], format!("authentication code: byte {i} xor {m:#04x}")));
+                        }
+                    }
+                    // salt: pairs by the same mask, neighbours exchanged
+                    for i in 0..sl {
+                        let j = (i + 1 + (i * 7) % (sl - 1).max(1)) % sl;
+                        if i != j {
+                            pats.push(("salt", xor2(i, j, 0x80), format!("salt: bytes {i} and {j} xor 0x80")));
+                            pats.push(("salt", xor2(i, j, 0xff), format!("salt: bytes {i} and {j} xor 0xff")));
+                            pats.push(("salt", vec![(i, blob[j as usize]), (j, blob[i as usize])], format!("salt: bytes {i} and {j} exchanged")));
+                        }
+                    }
+                    // ciphertext: pairs by the same mask (neighbours, one block apart), blocks exchanged, last byte only
+                    let c0 = sl + 2;
+                    let cn = cs - 10 - c0;
+                    if cn >= 2 {
+                        for i in (0..cn - 1).step_by(((cn / 24).max(1)) as usize) {
+                            pats.push(("ciphertext", xor2(c0 + i, c0 + i + 1, 0x01), format!("ciphertext: bytes {i} and {} xor 0x01", i + 1)));
+                            pats.push(("ciphertext", xor2(c0 + i, c0 + i + 1, 0xff), format!("ciphertext: bytes {i} and {} xor 0xff", i + 1)));
+                            if i + 16 < cn {
+                                pats.push(("ciphertext", xor2(c0 + i, c0 + i + 16, 0x80), format!("ciphertext: bytes {i} and {} xor 0x80", i + 16)));
+                            }
+                        }
+                        pats.push(("ciphertext", vec![(c0 + cn - 1, blob[(c0 + cn - 1) as usize] ^ 0xa5)], "ciphertext: last byte xor 0xa5".into()));
+                    }
+                    if cn >= 32 {
+                        pats.push(("ciphertext", (0..16u64).flat_map(|i| vec![(c0 + i, blob[(c0 + 16 + i) as usize]), (c0 + 16 + i, blob[(c0 + i) as usize])]).collect(), "ciphertext: first two 16-byte blocks exchanged".into()));
+                    }
+                    let (lo, hi) = range.unwrap_or((0, pats.len() as u64));
+                    let mut img = b.image.clone();
+                    for k in lo..hi.min(pats.len() as u64) {
+                        let (region, edits, what) = &pats[k as usize];
+                        if edits.iter().all(|(o, v)| blob[*o as usize] == *v) {
+                            continue; // not a change (exchanged equal bytes)
+                        }
+                        for (o, v) in edits {
+                            img[(info.data_start + o) as usize] = *v;
+                        }
+                        *ctx.fired.entry(format!("Pattern:{region}")).or_insert(0) += 1;
+                        let r = tamper(&img, what.clone(), ctx);
+                        for (o, _) in edits {
+                            img[(info.data_start + o) as usize] = blob[*o as usize];
+                        }
+                        r?;
+                    }
+                }
                 AesPlan::Flips(fl) => {
                     for (pos, bit) in fl {
                         let off = pos % info.csize.max(1);
@@ -799,6 +892,14 @@ impl Scenario for AesSc {
                 let mid = lo + (hi - lo) / 2;
                 out.push(AesCase { plan: AesPlan::AllFlips { range: Some((lo, mid)) }, ..c.clone() });
                 out.push(AesCase { plan: AesPlan::AllFlips { range: Some((mid, hi)) }, ..c.clone() });
+            }
+        }
+        if let AesPlan::Patterns { range } = &c.plan {
+            let (lo, hi) = range.unwrap_or((0, 1 << 12));
+            if hi - lo > 1 {
+                let mid = lo + (hi - lo) / 2;
+                out.push(AesCase { plan: AesPlan::Patterns { range: Some((lo, mid)) }, ..c.clone() });
+                out.push(AesCase { plan: AesPlan::Patterns { range: Some((mid, hi)) }, ..c.clone() });
             }
         }
         if let AesPlan::Flips(fl) = &c.plan {
